@@ -91,6 +91,11 @@ func VerifyUnit(L *Loaded, db *ContractDB, pkg *packages.Package, fd *ast.FuncDe
 					res.Err = fmt.Sprintf("contract gives clauses for loop %d, but no such loop was reached in %s", k, unit)
 				}
 			}
+			for k := range c.ExecLoops {
+				if !x.execLoopSeen[k] {
+					res.Err = fmt.Sprintf("contract gives clauses for loop %d of the exec literals, but no literal of %s has such a loop", k, unit)
+				}
+			}
 		}
 		for _, n := range x.oblOrder {
 			res.Obls = append(res.Obls, x.obls[n])
@@ -494,8 +499,24 @@ func (x *Exec) verifyInlineLit(lit *ast.FuncLit, st *State, params, results []st
 	saveRet, saveLoops, saveDepth := x.retObjs, x.loopOrd, x.litDepth
 	x.retObjs = nil
 	x.loopOrd = nil
+	saveConLoops, saveSeen := x.con.Loops, x.loopSeen
+	if len(x.con.ExecLoops) > 0 {
+		// loop clauses for the literal's own loops
+		x.loopOrd = numberLoops(lit.Body)
+		x.con.Loops = x.con.ExecLoops
+		x.loopSeen = map[int]bool{}
+	}
 	x.litDepth++
 	outs := x.execBlock(lit.Body.List, ls)
+	if len(x.con.ExecLoops) > 0 {
+		for k := range x.loopSeen {
+			if x.execLoopSeen == nil {
+				x.execLoopSeen = map[int]bool{}
+			}
+			x.execLoopSeen[k] = true
+		}
+	}
+	x.con.Loops, x.loopSeen = saveConLoops, saveSeen
 	x.retObjs, x.loopOrd, x.litDepth = saveRet, saveLoops, saveDepth
 	var resTypes []types.Type
 	if lit.Type.Results != nil {
